@@ -55,8 +55,8 @@ func init() {
 	register(&PropDef{
 		ID:    "C15",
 		Level: "exploration",
-		Rule: "check 'bulk': 1–3 concurrent bulk streams (CLI-style cli.Bulk and HTTP-style /bulk handler) of 1–40 mixed requests (build, sign, verify, validate, correct, replicate, ping, sleep with virtual latencies, schemas, schema, regime, keygen, unknown) over corpus documents; the reader delivers seeded chunk sizes, the consumer lags, and a seeded weighted scheduler chooses at every yield point (decode, worker start, worker processed/send, drain, final, delivery, consume, clock advance) which task proceeds; oracle: per accepted request exactly one response with its req_id and 1-based position whose payload equals the standalone operation executed at the same simulated instant, one final marker, last, with seq n+1, nothing after it; bounded liveness in scheduler steps once input is closed. " +
-			"check 'interleave': 2–8 library callers over independent documents (every regime × addon pairing of the corpus, plus regime base invoices crossed with every addon) advanced in scheduler-chosen order, per-step outputs equal to each slot's solo run; check 'shared': deep fingerprint of every package-level variable of every gobl package unchanged after every operation; checks 'race' and 'racebulk' (race-detector monitors, not deterministic): the same library workload, and free-running bulk streams (HTTP-style ones on one shared server) with the pairing oracle, at GOMAXPROCS 1/4/16. A case is a distinct (plan shape, grant-sequence hash); non-trivial when ≥ 2 tasks were interleaved",
+		Rule: "check 'bulk': 1–3 concurrent bulk streams (CLI-style cli.Bulk and HTTP-style /bulk handler) of 1–40 mixed requests (build, sign, verify, validate, correct, replicate, ping, sleep with virtual latencies, schemas, schema, regime, keygen, unknown) over corpus documents; the reader delivers seeded chunk sizes, the consumer lags, and a seeded weighted scheduler chooses at every yield point (decode, worker start, worker processed/send, drain, final, delivery, consume, clock advance, the caller going away) which task proceeds; oracle: per accepted request exactly one response with its req_id and 1-based position whose payload equals the standalone operation executed at the same simulated instant, one final marker, last, with seq n+1, nothing after it; bounded liveness in scheduler steps once input is closed. " +
+			"check 'interleave': 2–8 library callers over independent documents (every regime × addon pairing of the corpus, plus regime base invoices crossed with every addon) advanced in scheduler-chosen order, per-step outputs equal to each slot's solo run; check 'shared': deep fingerprint of every package-level variable of every gobl package unchanged after every operation; checks 'race', 'racebulk' and 'racecold' (race-detector monitors, not deterministic): the same library workload (incl. one option list shared by all callers, stamped envelopes, undated documents), free-running bulk streams (HTTP-style ones on one shared server, a strict response writer, a slow client every fourth run) with the pairing oracle, at GOMAXPROCS 1/4/16, and fresh -race processes that load nothing before 4-12 callers are released at once on one corpus source or shipped envelope (first use of lazily initialised state). A case is a distinct (plan shape, grant-sequence hash); non-trivial when ≥ 2 tasks were interleaved",
 		Assumptions: []string{
 			"requests of one stream operate on independent documents, so the sequential specification is a pure function per request and per-request equality is the complete check (no linearizability search needed)",
 			"fields the process generates itself when the input lacks them (head.uuid, signatures, key material, identifiers of corrected/replicated documents) are excluded from payload equality",
